@@ -18,6 +18,7 @@ func init() {
 			c.run("C15-R4", "GUARD-DOM/WHO-CALLS: writer state machine", c15R4)
 			c.run("C15-R5", "WHO-CALLS: entries are created through the checked create path", c15R5)
 			c.run("C15-R7", "GUARD-DOM/MUST-PASS: every payload read / write on an entry's file is capped by, and accounted against, what the entry is owed", c15Accounting)
+			c.run("C15-R8", "WHO-CALLS: inventory of how the archive reader obtains file content", c15Sources)
 			c.run("C15-S1", "shared with C09-V: the entry-name validator refuses exactly the names that are not a single path element (any other name of the tree is accepted)", c09Validators)
 			c.run("C15-R6", "PAIR (shared with C01-R6): open files do not accumulate over the per-file loops", c01R6)
 		})
@@ -419,6 +420,44 @@ func c15R5(c *Ctx) {
 // c15Accounting: every transfer of payload bytes between the stream and an entry's file — on either end, at every
 // site, not only at the one the other rules anchor on — is capped by what the entry is still owed and is followed,
 // before the function can return or move on, by `left -= n` with n the count that very call reported.
+// c15Sources: inventory of how the archive reader obtains payload bytes. The shrink check and the accounting rules
+// are stated for reads of the entry's open file; any other way of getting file content into the stream (ReadFile,
+// ReadAll, ReadFull, Copy, a second descriptor) is outside what those rules vouch for and is reported.
+func c15Sources(c *Ctx) {
+	f := c.fn("archiveFileReader.Read")
+	allowed := map[string]string{
+		"os.Open":                "opens the entry's file",
+		"(*os.File).Read":        "the accounted payload read (C15-R2 / C15-R7)",
+		"(*os.File).Close":       "closes the previous entry's file",
+		"trzsz.minInt64":         "the cap",
+		"builtin append":         "header + newline into the pending buffer",
+		"builtin copy":           "pending buffer to the caller",
+		"builtin len":            "",
+		"trzsz.simpleTrzszError": "error construction",
+	}
+	n := 0
+	for _, ci := range callsIn(f, anyID) {
+		id := calleeID(ci.Common())
+		if _, ok := allowed[id]; ok {
+			n++
+			continue
+		}
+		pkg := ""
+		if g := ci.Common().StaticCallee(); g != nil && g.Pkg != nil {
+			pkg = g.Pkg.Pkg.Path()
+		}
+		reads := pkg == "os" || pkg == "io" || pkg == "io/ioutil" || pkg == "bufio"
+		if ci.Common().IsInvoke() {
+			nm := ci.Common().Method.Name()
+			reads = nm == "Read" || nm == "ReadAt" || nm == "ReadFrom" || nm == "WriteTo"
+		}
+		c.check(!reads, "Read/payload-source."+id, c.ipos(ci), "not a source of file content", "the archive reader obtains file content through "+id+", which the shrink check and the accounting rules do not cover: a file that shrank after the scan yields a short payload without an error and every later entry shifts")
+	}
+	if n < 4 {
+		c.undecided("Read/payload-sources", "fewer known calls in the archive reader than expected")
+	}
+}
+
 func c15Accounting(c *Ctx) {
 	for _, side := range []struct{ fn, method, owner string }{
 		{"archiveFileReader.Read", "Read", "archiveFileReader"},
